@@ -520,7 +520,7 @@ def run_roll(ctx, q):
         roll_s2c_calls(ctx, ctx.generate('MC_RollCall', 'MC_RollCall_gen_empty.cfg'))
     hists = ctx.generate('MC_Roll', 'MC_Roll_gen3.cfg' if q else 'MC_Roll_gen4.cfg')
     roll_s2c_sessions(ctx, ctx.rng.sample(hists, 600) if q and len(hists) > 600 else hists)
-    roll_s2c_sessions(ctx, _simulate(ctx, 'MC_Roll', 'MC_Roll_gen.cfg', 25 if q else 1500, 7, ctx.seed + 1))
+    roll_s2c_sessions(ctx, _simulate(ctx, 'MC_Roll', 'MC_Roll_gen.cfg', 25 if q else 800, 7, ctx.seed + 1))
     roll_c2s(ctx, 500 if q else 8000)
 
 
